@@ -563,11 +563,14 @@ class Printer:
             self.stmt(s[2], k, ind + 1)
             self.emit(t + "}")
         elif kind == "return":
-            self.emit("%sreturn %s" % (t, self.atom(s[1], k)[0]))
+            # a spelling: the result in (redundant) parentheses
+            self.emit(("%sreturn (%s)" if self.pick(6) == 5 else "%sreturn %s") % (t, self.atom(s[1], k)[0]))
         elif kind == "return2":
             self.used_sentinel = False
             et = self.errexpr(s[2], k, self.cur_fd.get("okform"))
             at = self.atom(s[1], k)[0]
+            if self.pick(6) == 5:
+                at = "(%s)" % at          # the value result in (redundant) parentheses
             sent = self.used_sentinel
             if self.cur_fd.get("named"):
                 # (a bare return hides a constant ok operand in a variable: outside the convention as NilAway reads it)
